@@ -162,6 +162,7 @@ class SchedSimpleQueue(object):
         if s is None or not block or s.me() is None:
             return self._q.get(block, timeout)
         box = []
+        timed = timeout is not None
 
         def attempt():
             try:
@@ -170,7 +171,8 @@ class SchedSimpleQueue(object):
             except _queue.Empty:
                 return False
 
-        s.blocking_op(attempt, "queue.get")
+        if not s.blocking_op(attempt, "queue.get", timed=timed):
+            raise _queue.Empty
         return box[0]
 
     def get_nowait(self):
@@ -202,7 +204,7 @@ class SchedCondition(_real_Condition):
 
     def wait(self, timeout=None):
         s = ACTIVE
-        if s is None or timeout is not None or getattr(_tl, "raw", False) or s.me() is None:
+        if s is None or getattr(_tl, "raw", False) or s.me() is None:
             return _real_Condition.wait(self, timeout)
         if not self._is_owned():
             raise RuntimeError("cannot wait on un-acquired lock")
@@ -211,8 +213,13 @@ class SchedCondition(_real_Condition):
         self._waiters.append(waiter)
         saved = self._release_save()
         try:
-            s.blocking_op(lambda: waiter.acquire(False), "condition.wait")
-            return True
+            got = s.blocking_op(lambda: waiter.acquire(False), "condition.wait", timed=timeout is not None)
+            if not got:
+                try:
+                    self._waiters.remove(waiter)
+                except ValueError:
+                    pass
+            return got
         finally:
             self._acquire_restore(saved)
 
@@ -259,9 +266,10 @@ class SchedThread(_real_Thread):
 
     def join(self, timeout=None):
         s = ACTIVE
-        if s is None or s.me() is None or timeout is not None:
+        if s is None or s.me() is None:
             return _real_Thread.join(self, timeout)
-        s.blocking_op(lambda: self._vf_finished or not self.is_alive(), "join")
+        # a timed join is modelled logically: its timeout expires only when nothing else can run (see Scheduler.blocking_op)
+        s.blocking_op(lambda: self._vf_finished or not self.is_alive(), "join", timed=timeout is not None)
         return None
 
 
@@ -371,7 +379,10 @@ class Scheduler(object):
         self.waiting = {}  # thread name -> (what, object) of the blocking operation it is retrying
         self.deadlock = None
         self.idle_polls = 0  # consecutive polls without any thread making a step
+        self.timeouts_fired = 0
         self.blocked_log = []  # (thread, kind of operation) each time a blocking operation could not proceed at once
+        self.timed_waiters = set()  # threads inside a blocking operation that has a timeout
+        self.timed_out = set()  # timed waiters whose timeout has (logically) expired
 
     # ---- helpers
     def _prio_of(self, name):
@@ -420,7 +431,16 @@ class Scheduler(object):
                 self.current = None
                 self.cv.notify_all()
                 return
-            # everybody is blocked. If each one waits for a lock held by another blocked (or finished) registered thread,
+            # everybody is blocked. A pending timed wait expires now (highest priority first): that is the only way on.
+            expiring = [t for t in waiting if t.name in self.timed_waiters and t.name not in self.timed_out]
+            if expiring:
+                t = max(expiring, key=lambda x: x.prio)
+                self.timed_waiters.discard(t.name)
+                self.timed_out.add(t.name)
+                t.blocked = False
+                self.timeouts_fired += 1
+                continue
+            # If each one waits for a lock held by another blocked (or finished) registered thread,
             # nothing can ever change: a deadlock of the code under test, decided logically, not by a clock.
             dl = self._deadlocked(waiting)
             if dl:
@@ -518,13 +538,22 @@ class Scheduler(object):
                 self.fired.append((me, t.events, "%s:%s" % (code.co_filename.rsplit("/", 1)[-1], line) if code is not None else kind))
             self._hand_over(me)
 
-    def blocking_op(self, attempt, what, obj=None):
+    def blocking_op(self, attempt, what, obj=None, timed=False):
+        """Retry `attempt` at switch points until it succeeds. With timed=True the operation has a timeout in the code under test:
+        it is modelled as expiring only when no registered thread can make progress otherwise (timeouts are 'long'); returns False then."""
         me = self.me()
         while True:
             self.yield_point(me, what)
             if attempt():
                 self.waiting.pop(me, None)
+                self.timed_out.discard(me)
                 return True
+            if timed and me in self.timed_out:
+                self.timed_out.discard(me)
+                self.waiting.pop(me, None)
+                return False
+            if timed:
+                self.timed_waiters.add(me)
             with self.cv:
                 self.threads[me].blocked = True
                 self.waiting[me] = (what, obj)
@@ -546,6 +575,7 @@ class Scheduler(object):
             "aborted": self.aborted,
             "deadlock": self.deadlock,
             "blocked": list(self.blocked_log),
+            "timeouts_fired": self.timeouts_fired,
             "polls": self.polls,
             "dynamic_threads": self.ndyn,
         }
@@ -654,3 +684,12 @@ def notify():
     s = ACTIVE
     if s is not None:
         s.state_changed()
+
+
+def sleep():
+    """A 'long' sleep in logical time: returns only when no other registered thread can make progress (and all timed waits of
+    higher-priority threads have expired)."""
+    s = ACTIVE
+    if s is None or s.me() is None:
+        return
+    s.blocking_op(lambda: False, "sleep", timed=True)
